@@ -1,14 +1,24 @@
 // C01 correspondence harness: generated histories of acknowledged write batches (fresh, out-of-order, overwriting,
-// partial-field) and forced flushes are run on a REAL shard (engine/verif_export_c02.go through internal/tsdrv) with
-// 1/2/3/16 WAL partitions, through the recording VFS (internal/crashfs, hook lib/fileops/verif_export_c03.go). At file
-// system mutations of the write path (WAL append - also torn), of the memtable flush (data-file create/write/sync/
-// rename, WAL file removal) and of log replay itself, a crash image (copy of the shard directory) is frozen. Every image
-// is opened with the real code as a NEW shard (WAL replay, force flush, log removal), all rows are dumped through the
-// real cursors, and the DIRECT ORACLE is applied: the dump equals the Go last-write-wins map of the writes acknowledged
-// before the crash (optionally plus the one write in flight): no loss, no reversion, no invention.
-// One JSON object per history; every image carries the abstract WAL contents at the crash (per partition, per file, the
-// indexes of the write ops whose records are complete) so that the driver can run the Coq model (current / repaired
-// replay order) on it and classify failures against the known finding.
+// partial-field, one or two measurements), forced / paused / size-triggered flushes and DROP MEASUREMENT are run on a REAL
+// shard (engine/verif_export_c02.go, verif_export_c01*.go) with 1/2/3/16 WAL partitions, through the recording VFS
+// (internal/crashfs, hook lib/fileops/verif_export_c03.go) and a gate on top of it (gate.go) that can hold the flusher
+// in the middle of a memtable flush (before the data-file create / rename / first or second log removal) while more
+// writes are acknowledged, and can hold the log replay of a re-opened shard. At file system mutations of the write path
+// (WAL append - also torn, every byte prefix for one write per run), of the memtable flush (data-file create/write/sync/
+// rename, WAL file removal), of the series index and of log replay itself, a crash image (copy of the shard directory)
+// is frozen. Every image is opened with the real code as a NEW shard (WAL replay, force flush, log removal), all rows of
+// all measurements are dumped through the real cursors, and the DIRECT ORACLE is applied: the dump equals the Go
+// last-write-wins map of the writes acknowledged before the crash (optionally plus the one operation in flight), minus
+// acknowledged drops: no loss, no reversion, no resurrection, no invention.
+// Asynchronous replay (wal-replay-async): images of "async" histories are opened with the replay held before its first
+// log file; a DROP MEASUREMENT is attempted (must be refused and must leave no mark), a write is acknowledged, the
+// replay is released, the shard is read, killed, re-opened and read again.
+// One JSON object per history; every image carries the abstract WAL contents at the crash (per partition the indexes of
+// the write ops whose records are complete), the number of log switches, of completed log removals and the partitions
+// already removed from the epoch being removed, so that the driver can run the Coq model on it (live-log tie, current /
+// repaired replay order) and classify failures against the known finding.
+// A history that makes no progress for a while (watchdog) or whose flush path panics is reported with its ops and the
+// images evaluated so far; the run then stops.
 //
 // usage: c01 <n-histories> [replay-file]
 package main
@@ -20,13 +30,15 @@ import (
 	"os"
 	"path/filepath"
 	"regexp"
+	"runtime"
 	"runtime/debug"
 	"sort"
 	"strconv"
 	"strings"
+	"sync"
+	"sync/atomic"
 	"time"
 
-	"github.com/openGemini/openGemini/lib/util/lifted/vm/protoparser/influx"
 	"github.com/openGemini/openGemini/lib/config"
 	"verifharness/internal/crashfs"
 	"verifharness/internal/gen"
@@ -38,6 +50,9 @@ const NT = 10 // timestamps 0..9
 type Op struct {
 	K    string      `json:"k"` // W F FB FE D(rop measurement)
 	Rows []tsdrv.Row `json:"rows,omitempty"`
+	M    int         `json:"m,omitempty"` // D: measurement index
+	P    int         `json:"p,omitempty"` // FB: where the flusher is held (0 before the first data-file create, 1 before the first
+	// data-file rename, 2 before the first log removal, 3 before the second log removal)
 }
 
 type Cell struct {
@@ -50,50 +65,86 @@ type Cell struct {
 	GOk  bool  `json:"gok"`
 }
 
+// what happened while the asynchronous replay of an image was held
+type AsyncInfo struct {
+	WalFiles    int         `json:"walfiles"`  // log files in the image
+	Replaying   bool        `json:"replaying"` // shard.replayingWal right after the open, replay held
+	DropTried   bool        `json:"drop_tried"`
+	DropM       int         `json:"drop_m"`
+	DropRefused bool        `json:"drop_refused"`
+	MarkAfter   bool        `json:"mark_after"` // the measurement still carries the deleting mark after the drop returned
+	Extra       []tsdrv.Row `json:"extra,omitempty"`
+	ExtraAcked  bool        `json:"extra_acked"`
+	Live        string      `json:"live"` // oracle verdict on the dump of the live shard after the replay finished
+	LiveDiff    []Cell      `json:"live_diff,omitempty"`
+}
+
 type Image struct {
-	At       string  `json:"at"`       // description of the crash point
-	Op       int     `json:"op"`       // index of the op during which the crash happens (len(ops) = after the last op)
-	Acked    int     `json:"acked"`    // ops[0:acked] were acknowledged before the crash
-	Inflight int     `json:"inflight"` // write op in flight (-1 none)
-	Torn     int     `json:"torn"`     // bytes of the in-flight WAL record on disk (-1: not a torn image)
-	Sub      int     `json:"sub"`      // second crash after this many mutations of the recovery pass (-1 none)
-	Parts    [][]int `json:"parts"`    // live WAL: per partition, write-op indexes of the complete records, oldest first
-	Epochs   [][]int `json:"epochs"`   // same shape: flush generation (epoch) of each record
-	Dump     []Cell  `json:"dump"`     // recovered cells (Got) - all series, all fields, full range
-	Match    string  `json:"match"`    // "acked", "acked+inflight" or "" (oracle failed)
-	Diff     []Cell  `json:"diff,omitempty"`
-	Err      string  `json:"err,omitempty"`
-	Extra    []tsdrv.Row `json:"extra,omitempty"` // async replay: a write acknowledged by the re-opened shard while the log was being re-applied
-	Txn      int     `json:"txn"` // pending (non-temporary) transaction files of the series index in the image
+	At       string     `json:"at"`       // description of the crash point
+	Op       int        `json:"op"`       // index of the op during which the crash happens (len(ops) = after the last op)
+	Acked    int        `json:"acked"`    // ops[0:acked] were acknowledged before the crash
+	Inflight int        `json:"inflight"` // op in flight (-1 none)
+	Torn     int        `json:"torn"`     // bytes of the in-flight WAL record on disk (-1: not a torn image)
+	Sub      int        `json:"sub"`      // second crash after this many mutations of the recovery pass (-1 none)
+	Parts    [][]int    `json:"parts"`    // live WAL: per partition, write-op indexes of the complete records, oldest first
+	Epochs   [][]int    `json:"epochs"`   // same shape: flush generation (epoch) of each record
+	NRec     int        `json:"nrec"`     // write ops whose log record is completely on disk
+	NSw      int        `json:"nsw"`      // log switches so far
+	NJ       int        `json:"nj"`       // flushes whose log removal is complete
+	Gone     []int      `json:"gone"`     // partitions whose file of epoch NJ has been removed already
+	Tie      bool       `json:"tie"`      // the live-log tie applies
+	Dump     []Cell     `json:"dump"`     // recovered cells (Got) - all series, all fields, full range
+	Match    string     `json:"match"`    // "acked", "acked+inflight", "partial-drop" or "" (oracle failed)
+	Diff     []Cell     `json:"diff,omitempty"`
+	Err      string     `json:"err,omitempty"`
+	Async    *AsyncInfo `json:"async,omitempty"`
+	Txn      int        `json:"txn"` // pending (non-temporary) transaction files of the series index in the image
 }
 
 type History struct {
 	Case   int     `json:"case"`
 	NWal   int     `json:"nwal"`
 	NSer   int     `json:"nser"`
+	NMst   int     `json:"nmst"`
 	Ops    []Op    `json:"ops"`
 	Auto   bool    `json:"auto"`  // size-triggered (automatic) flushes: memtable limit of 1 byte, 100 ms snapshot timer
-	Async  bool    `json:"async"` // crash images are opened with wal-replay-async = true and written to while the log is re-applied
-	Pre    int     `json:"pre"` // leading warm-up ops (write+flush rounds that age the shard); no crash images there
+	Async  bool    `json:"async"` // crash images are opened with wal-replay-async = true (see AsyncInfo)
+	Pre    int     `json:"pre"`   // leading warm-up ops (write+flush rounds that age the shard); no crash images there
 	Images []Image `json:"images"`
 	Crash  string  `json:"crash,omitempty"`
+	TieErr string  `json:"tie_err,omitempty"` // the flush removed a log file the model's flush may not remove (or left one)
 	Flags  Flags   `json:"flags"`
 }
 
 type Flags struct {
-	Overwrite     bool `json:"overwrite"`      // some (series,time,field) written twice
+	Overwrite     bool `json:"overwrite"`       // some (series,time,field) written twice
 	SameEpochOver bool `json:"same_epoch_over"` // ... twice within one WAL epoch
-	Late          bool `json:"late"`           // a row at or below already flushed time of its series
+	Late          bool `json:"late"`            // a row at or below already flushed time of its series
 	Partial       bool `json:"partial"`
 	Flushes       int  `json:"flushes"`
 	Drops         int  `json:"drops"`
+	PausedWrites  int  `json:"paused_writes"` // writes acknowledged while a flush was held
+	TornAll       int  `json:"torn_all"`      // images of the every-byte-prefix sweep
 }
 
 // ---- generation ----
 
-func genHistory(r *gen.Rand) (nser, nwal, pre int, ops []Op) {
-	nser = r.Range(1, 5)
-	nwal = gen.Pick(r, []int{1, 2, 3, 16, 16})
+type spec struct {
+	nser, nwal, nmst, pre int
+	auto, async           bool
+	tornAll               int // index of the write op that gets an image for every byte prefix of its log record (-1 none)
+	ops                   []Op
+}
+
+func genHistory(r *gen.Rand) (sp spec) {
+	sp.tornAll = -1
+	sp.nser = r.Range(1, 5)
+	sp.nwal = gen.Pick(r, []int{1, 2, 3, 16, 16})
+	sp.nmst = 1
+	if sp.nser >= 2 && r.Chance(1, 3) {
+		sp.nmst = 2
+	}
+	var ops []Op
 	now := 2
 	val := int64(1)
 	n := r.Range(4, 26)
@@ -127,41 +178,42 @@ func genHistory(r *gen.Rand) (nser, nwal, pre int, ops []Op) {
 		return row
 	}
 	mkRow := func() tsdrv.Row {
-		if active < nser && r.Chance(1, 8) {
+		if active < sp.nser && r.Chance(1, 8) {
 			active++
 			return mkRowS(active - 1)
 		}
 		return mkRowS(r.Intn(active))
 	}
 	newSeries := func() { // a write that creates a brand-new series (its index entry is not durable yet)
-		if active < nser && r.Chance(2, 3) {
+		if active < sp.nser && r.Chance(2, 3) {
 			active++
 			ops = append(ops, Op{K: "W", Rows: []tsdrv.Row{mkRowS(active - 1)}})
 		}
 	}
+	pausePoint := func() int { return gen.Pick(r, []int{0, 0, 1, 2, 2, 3}) }
 	// a minority of histories start on an aged shard: k cheap write+flush rounds first, so that the WAL file numbers
 	// reach / cross a power of ten (9.wal -> 10.wal, 99.wal -> 100.wal); one partition, so every round advances the number
 	if r.Chance(1, 5) {
-		nwal = gen.Pick(r, []int{1, 1, 1, 2})
+		sp.nwal = gen.Pick(r, []int{1, 1, 1, 2})
 		k := gen.Pick(r, []int{8, 8, 9, 10, 11})
 		if r.Chance(1, 4) {
 			k = gen.Pick(r, []int{98, 98, 99, 100})
 		}
-		if nwal == 2 {
+		if sp.nwal == 2 {
 			k *= 2
 		}
 		for i := 0; i < k; i++ {
 			ops = append(ops, Op{K: "W", Rows: []tsdrv.Row{{S: 0, T: i % NT, F: []tsdrv.FV{{F: 0, V: val}}}}}, Op{K: "F"})
 			val++
 		}
-		pre = len(ops)
-		n += pre
+		sp.pre = len(ops)
+		n += sp.pre
 		// an overwrite that spans the log switch of a paused flush: older value in file k+1, newer in file k+2
 		s, t := 0, r.Intn(NT)
 		ops = append(ops, Op{K: "W", Rows: []tsdrv.Row{{S: s, T: t, F: []tsdrv.FV{{F: 0, V: val}}}}})
 		val++
-		ops = append(ops, Op{K: "FB"})
-		for i := 0; i < nwal; i++ {
+		ops = append(ops, Op{K: "FB", P: pausePoint()})
+		for i := 0; i < sp.nwal; i++ {
 			ops = append(ops, Op{K: "W", Rows: []tsdrv.Row{{S: s, T: t, F: []tsdrv.FV{{F: 0, V: val}}}}})
 			val++
 		}
@@ -170,7 +222,7 @@ func genHistory(r *gen.Rand) (nser, nwal, pre int, ops []Op) {
 	}
 	for len(ops) < n {
 		if r.Chance(1, 14) && len(ops) > 2 {
-			ops = append(ops, Op{K: "D"}) // DROP MEASUREMENT: everything written so far must stay gone
+			ops = append(ops, Op{K: "D", M: r.Intn(sp.nmst)}) // DROP MEASUREMENT: everything written to it so far must stay gone
 			continue
 		}
 		switch k := r.Intn(10); {
@@ -193,11 +245,16 @@ func genHistory(r *gen.Rand) (nser, nwal, pre int, ops []Op) {
 		case k < 9:
 			newSeries()
 			if r.Chance(1, 2) {
-				// a flush that is paused after the log switch / memtable swap while more writes are acknowledged:
-				// two WAL epochs are live until the flush finishes
-				ops = append(ops, Op{K: "FB"})
+				// a flush that is held in the middle (after the log switch / memtable swap) while more writes are
+				// acknowledged: two WAL epochs are live until the flush finishes; the number of writes reaches the
+				// partition count now and then, so that the round-robin comes back to every partition
+				ops = append(ops, Op{K: "FB", P: pausePoint()})
 				s, t := r.Intn(active), r.Range(max(0, now-1), now)
-				for i := 0; i < r.Range(1, 3); i++ {
+				nw := r.Range(1, 3)
+				if r.Chance(1, 3) {
+					nw = min(sp.nwal, 4) + r.Intn(2)
+				}
+				for i := 0; i < nw; i++ {
 					if r.Chance(1, 2) {
 						ops = append(ops, Op{K: "W", Rows: []tsdrv.Row{{S: s, T: t, F: []tsdrv.FV{{F: 0, V: val}}}}})
 						val++
@@ -211,7 +268,7 @@ func genHistory(r *gen.Rand) (nser, nwal, pre int, ops []Op) {
 			}
 		default:
 			// burst of single-point writes (fills WAL partitions unevenly before a switch), flush, overwrites
-			m := r.Range(1, 2*nwal)
+			m := r.Range(1, 2*sp.nwal)
 			if m > 20 {
 				m = r.Range(1, 20)
 			}
@@ -226,91 +283,95 @@ func genHistory(r *gen.Rand) (nser, nwal, pre int, ops []Op) {
 			}
 		}
 	}
+	sp.ops = ops
+	sp.auto = r.Chance(1, 6)
+	sp.async = !sp.auto && r.Chance(1, 5)
 	return
 }
 
+func w1(s, t int, v int64) Op { return Op{K: "W", Rows: []tsdrv.Row{{S: s, T: t, F: []tsdrv.FV{{F: 0, V: v}}}}} }
+
 // the witness of DESIGN.md: N=16, 15 single-point writes, flush, two writes to one (series,time)
-func witness() (int, int, []Op) {
+func witness() spec {
 	var ops []Op
 	for i := 0; i < 15; i++ {
-		ops = append(ops, Op{K: "W", Rows: []tsdrv.Row{{S: 0, T: i % NT, F: []tsdrv.FV{{F: 0, V: int64(1000 + i)}}}}})
+		ops = append(ops, w1(0, i%NT, int64(1000+i)))
 	}
-	ops = append(ops, Op{K: "F"})
-	ops = append(ops, Op{K: "W", Rows: []tsdrv.Row{{S: 0, T: 3, F: []tsdrv.FV{{F: 0, V: 111}}}}})
-	ops = append(ops, Op{K: "W", Rows: []tsdrv.Row{{S: 0, T: 3, F: []tsdrv.FV{{F: 0, V: 222}}}}})
-	return 1, 16, ops
-}
-
-// write one batch through shard.WriteRows WITHOUT flushing the series index afterwards (tsdrv.Write does flush it):
-// a series created by the batch is durable only through its WAL record until the engine itself flushes the index
-// (memtable flush, background timer).
-func writeRows(sh *tsdrv.Shard, rows []tsdrv.Row) error {
-	irs := make([]influx.Row, len(rows))
-	for i, r := range rows {
-		ir := &irs[i]
-		ir.Name = tsdrv.Mst
-		ir.Timestamp = tsdrv.TimeOf(r.T)
-		ir.Tags = influx.PointTags{{Key: "host", Value: "h" + strconv.Itoa(r.S)}, {Key: "zone", Value: "z" + strconv.Itoa(r.S%2)}}
-		for _, fv := range r.F {
-			f := influx.Field{Key: tsdrv.FieldNames[fv.F], Type: tsdrv.FieldTypes[fv.F]}
-			switch fv.F {
-			case 0:
-				f.NumValue = float64(fv.V)
-			case 1:
-				f.NumValue = tsdrv.FloatOf(fv.V)
-			case 2:
-				f.NumValue = float64(fv.V & 1)
-			case 3:
-				f.StrValue = tsdrv.StrPool[int(fv.V)%len(tsdrv.StrPool)]
-			}
-			ir.Fields = append(ir.Fields, f)
-		}
-	}
-	return sh.V.WriteRows(irs)
+	ops = append(ops, Op{K: "F"}, w1(0, 3, 111), w1(0, 3, 222))
+	return spec{nser: 1, nwal: 16, nmst: 1, tornAll: -1, ops: ops}
 }
 
 // fixed history: a shard aged by 8 write+flush rounds (WAL file numbers reach 9), then an overwrite spanning the log
 // switch of a paused flush: the older value sits in 9.wal, the newer one in 10.wal
-func aged8() (int, int, int, []Op) {
+func aged8() spec {
 	var ops []Op
 	for i := 0; i < 8; i++ {
-		ops = append(ops, Op{K: "W", Rows: []tsdrv.Row{{S: 0, T: i, F: []tsdrv.FV{{F: 0, V: int64(500 + i)}}}}}, Op{K: "F"})
+		ops = append(ops, w1(0, i, int64(500+i)), Op{K: "F"})
 	}
 	pre := len(ops)
-	ops = append(ops, Op{K: "W", Rows: []tsdrv.Row{{S: 0, T: 4, F: []tsdrv.FV{{F: 0, V: 1}}}}})
-	ops = append(ops, Op{K: "FB"})
-	ops = append(ops, Op{K: "W", Rows: []tsdrv.Row{{S: 0, T: 4, F: []tsdrv.FV{{F: 0, V: 2}}}}})
-	ops = append(ops, Op{K: "FE"})
-	return 1, 1, pre, ops
+	ops = append(ops, w1(0, 4, 1), Op{K: "FB"}, w1(0, 4, 2), Op{K: "FE"})
+	return spec{nser: 1, nwal: 1, nmst: 1, pre: pre, tornAll: -1, ops: ops}
 }
 
 // fixed history: series that are created right before a flush (their index entry is durable only through the index
 // flush of that memtable flush) - crash points after the log removal must still find them
-func newSeriesBeforeFlush() (int, int, int, []Op) {
+func newSeriesBeforeFlush() spec {
 	ops := []Op{
-		{K: "W", Rows: []tsdrv.Row{{S: 0, T: 1, F: []tsdrv.FV{{F: 0, V: 10}}}}}, {K: "F"},
+		w1(0, 1, 10), {K: "F"},
 		{K: "W", Rows: []tsdrv.Row{{S: 1, T: 2, F: []tsdrv.FV{{F: 0, V: 11}, {F: 1, V: 11}}}}}, {K: "F"},
 		{K: "W", Rows: []tsdrv.Row{{S: 2, T: 3, F: []tsdrv.FV{{F: 0, V: 12}}}, {S: 0, T: 3, F: []tsdrv.FV{{F: 0, V: 13}}}}},
-		{K: "FB"}, {K: "W", Rows: []tsdrv.Row{{S: 3, T: 4, F: []tsdrv.FV{{F: 0, V: 14}}}}}, {K: "FE"},
-		{K: "W", Rows: []tsdrv.Row{{S: 1, T: 5, F: []tsdrv.FV{{F: 0, V: 15}}}}},
+		{K: "FB"}, w1(3, 4, 14), {K: "FE"},
+		w1(1, 5, 15),
 	}
-	return 4, 2, 0, ops
+	return spec{nser: 4, nwal: 2, nmst: 1, tornAll: -1, ops: ops}
 }
 
-// fixed history: DROP MEASUREMENT between flushed and unflushed data, later writes to the same name are fresh
-func dropHistory() (int, int, int, []Op) {
+// fixed history: DROP MEASUREMENT between flushed and unflushed data, later writes to the same name are fresh; two
+// measurements (series 0,2 -> m, series 1 -> m2): the other measurement must be untouched
+func dropHistory() spec {
 	ops := []Op{
 		{K: "W", Rows: []tsdrv.Row{{S: 0, T: 1, F: []tsdrv.FV{{F: 0, V: 20}}}, {S: 1, T: 1, F: []tsdrv.FV{{F: 0, V: 21}}}}}, {K: "F"},
 		{K: "W", Rows: []tsdrv.Row{{S: 0, T: 2, F: []tsdrv.FV{{F: 0, V: 22}, {F: 1, V: 22}}}}},
-		{K: "W", Rows: []tsdrv.Row{{S: 1, T: 0, F: []tsdrv.FV{{F: 0, V: 23}}}}},
-		{K: "D"},
+		w1(1, 0, 23),
+		{K: "D", M: 0},
 		{K: "W", Rows: []tsdrv.Row{{S: 0, T: 2, F: []tsdrv.FV{{F: 1, V: 24}}}}},
 		{K: "F"},
 		{K: "W", Rows: []tsdrv.Row{{S: 1, T: 1, F: []tsdrv.FV{{F: 1, V: 25}}}}},
-		{K: "D"},
-		{K: "W", Rows: []tsdrv.Row{{S: 1, T: 3, F: []tsdrv.FV{{F: 0, V: 26}}}}},
+		{K: "D", M: 1},
+		w1(1, 3, 26), w1(2, 3, 27),
 	}
-	return 2, 2, 0, ops
+	return spec{nser: 3, nwal: 2, nmst: 2, tornAll: -1, ops: ops}
+}
+
+// fixed histories: writes acknowledged while the flusher is held at each of its steps, with 1 partition and with
+// several (as many writes as partitions during the hold: the round-robin comes back to the partition written before
+// the flush), an overwrite of a flushed-in-progress cell among them, a second flush afterwards, two more writes
+func duringFlush(nwal, point int) spec {
+	ops := []Op{w1(0, 1, 31), {K: "FB", P: point}}
+	for i := 0; i < nwal; i++ {
+		ops = append(ops, w1(0, 1+(i%2), int64(32+i)))
+	}
+	ops = append(ops, w1(1, 2, 60), Op{K: "FE"}, w1(0, 3, 61), Op{K: "F"}, w1(0, 1, 62), w1(1, 2, 63))
+	return spec{nser: 2, nwal: nwal, nmst: 1, tornAll: -1, ops: ops}
+}
+
+// fixed history: every byte prefix of one log record (the overwrite after a flush), 2 partitions
+func tornSweep() spec {
+	ops := []Op{w1(0, 1, 41), w1(0, 2, 42), {K: "F"}, w1(0, 1, 43),
+		{K: "W", Rows: []tsdrv.Row{{S: 0, T: 1, F: []tsdrv.FV{{F: 0, V: 44}, {F: 1, V: 44}}}, {S: 1, T: 2, F: []tsdrv.FV{{F: 0, V: 45}, {F: 3, V: 2}}}}}}
+	return spec{nser: 2, nwal: 2, nmst: 1, tornAll: 4, ops: ops}
+}
+
+// fixed history for asynchronous replay: two measurements, flushed and unflushed rows of both, the images are opened
+// with the replay held, a drop is refused, a write is acknowledged, the replay's own flush runs, kill, re-open
+func asyncHistory() spec {
+	ops := []Op{
+		{K: "W", Rows: []tsdrv.Row{{S: 0, T: 1, F: []tsdrv.FV{{F: 0, V: 70}}}, {S: 1, T: 1, F: []tsdrv.FV{{F: 0, V: 71}}}}}, {K: "F"},
+		w1(0, 2, 72), w1(1, 2, 73), w1(0, 1, 74),
+		{K: "FB", P: 2}, w1(1, 1, 75), {K: "FE"},
+		w1(2, 3, 76),
+	}
+	return spec{nser: 3, nwal: 2, nmst: 2, async: true, tornAll: -1, ops: ops}
 }
 
 // ---- run ----
@@ -322,8 +383,6 @@ type pending struct {
 	walEpoch map[string]int
 }
 
-func allFields() []int { return []int{0, 1, 2, 3} }
-
 var tmpName = regexp.MustCompile(`\.tmp\.\d+$`)
 
 func copyWal(m map[string][]int) map[string][]int {
@@ -333,9 +392,16 @@ func copyWal(m map[string][]int) map[string][]int {
 	}
 	return out
 }
+func copyEpoch(m map[string]int) map[string]int {
+	out := map[string]int{}
+	for k, v := range m {
+		out[k] = v
+	}
+	return out
+}
 
 // abstract WAL of an image directory: per partition the records of the files still present, oldest file first
-func partsOf(imgDir string, nwal int, wal map[string][]int, walEpoch map[string]int) (parts, epochs [][]int) {
+func partsOf(imgDir string, nwal int, wal map[string][]int, walEpoch map[string]int) (parts, epochs [][]int, nfiles int) {
 	parts = make([][]int, nwal)
 	epochs = make([][]int, nwal)
 	for p := 0; p < nwal; p++ {
@@ -354,6 +420,7 @@ func partsOf(imgDir string, nwal int, wal map[string][]int, walEpoch map[string]
 			if err != nil {
 				continue
 			}
+			nfiles++
 			fl = append(fl, fe{n, filepath.Join("wal", strconv.Itoa(p), e.Name())})
 		}
 		sort.Slice(fl, func(i, j int) bool { return fl[i].seq < fl[j].seq })
@@ -367,49 +434,78 @@ func partsOf(imgDir string, nwal int, wal map[string][]int, walEpoch map[string]
 	return
 }
 
-func runHistory(idx int, work string, nser, nwal, pre int, auto, async bool, ops []Op, r *gen.Rand, rec *crashfs.Recorder, quick bool) (h History) {
+// progress of the running history, read by the watchdog
+var (
+	progress atomic.Int64
+	phase    atomic.Value // string
+)
+
+func tick(what string) {
+	progress.Add(1)
+	phase.Store(what)
+}
+
+type runner struct {
+	g     *gate
+	rec   *crashfs.Recorder
+	work  string
+	quick bool
+	hmu   sync.Mutex // guards the History being built (the watchdog copies it)
+	cur   *History
+}
+
+// run f in a goroutine, give up after d (the goroutine is left behind)
+func withTimeout(d time.Duration, f func()) bool {
+	done := make(chan struct{})
+	go func() {
+		defer func() { _ = recover(); close(done) }()
+		f()
+	}()
+	select {
+	case <-done:
+		return true
+	case <-time.After(d):
+		return false
+	}
+}
+
+func (rn *runner) runHistory(idx int, sp spec, r *gen.Rand) *History {
+	quick, rec, g := rn.quick, rn.rec, rn.g
+	ops, nser, nwal, nmst, pre := sp.ops, sp.nser, sp.nwal, max(sp.nmst, 1), sp.pre
 	dense := idx > 100000 // the fixed histories: every first-level crash point, sampled second-level ones
-	h = History{Case: idx, NWal: nwal, NSer: nser, Ops: ops, Pre: pre, Auto: auto, Async: async, Images: []Image{}}
-	base := filepath.Join(work, "c01", strconv.Itoa(idx))
+	h := &History{Case: idx, NWal: nwal, NSer: nser, NMst: nmst, Ops: ops, Pre: pre, Auto: sp.auto, Async: sp.async, Images: []Image{}}
+	rn.hmu.Lock()
+	rn.cur = h
+	rn.hmu.Unlock()
+	base := filepath.Join(rn.work, "c01", strconv.Itoa(idx))
 	dir := filepath.Join(base, "live")
 	_ = os.RemoveAll(base)
 	defer os.RemoveAll(base)
-	defer func() {
-		if e := recover(); e != nil {
-			rec.Stop()
-			h.Crash = fmt.Sprint("panic: ", e)
-			if os.Getenv("VERIF_DEBUG") != "" {
-				fmt.Fprintf(os.Stderr, "PANIC %v\n%s\n", e, debug.Stack())
-			}
-		}
-	}()
 	tsdrv.SetWalPartitions(nwal)
-	if auto {
+	if sp.auto {
 		config.SetShardMemTableSizeLimit(1)
 		defer config.SetShardMemTableSizeLimit(30 * 1024 * 1024)
 	}
-	sh, err := tsdrv.Open(dir, nser)
+	tick("open")
+	sh, err := openShard(dir, false)
 	if err != nil {
 		h.Crash = "open: " + err.Error()
-		return
+		return h
 	}
-	closed := false
-	defer func() {
-		if !closed {
-			_ = sh.Close()
-		}
-	}()
 	// flags
 	lastEpoch := map[tsdrv.Key]int{}
 	flushedMax := map[int]int{}
 	memMax := map[int]int{}
-	epoch := 0
+	epoch := 0 // log switches so far
+	nj := 0    // flushes whose log removal is complete
+	var gone []int
+	nrec := 0
 
 	var pend []pending
 	nimg := 0
 	capImg := 14
 	if dense {
-		capImg = 36
+		capImg = 40
 	}
 	if !quick {
 		capImg = 400
@@ -421,9 +517,21 @@ func runHistory(idx int, work string, nser, nwal, pre int, auto, async bool, ops
 	var txnOrder []string
 	cur, acked := 0, 0
 	inWrite := false
-	paused := false
+	inFlush := false // a flush (forced, held, the one of a drop) is between its log switch and its completion
 	rel := func(p string) string { x, _ := filepath.Rel(dir, p); return x }
-	isWal := func(p string) bool { return strings.HasPrefix(rel(p), "wal"+string(os.PathSeparator)) }
+	sep := string(os.PathSeparator)
+	isWal := func(p string) bool { return strings.HasPrefix(rel(p), "wal"+sep) }
+	isData := func(p string) bool { return strings.HasPrefix(rel(p), "data"+sep) }
+	isIndex := func(p string) bool { return strings.Contains(rel(p), "index"+sep) }
+	partOf := func(rp string) int {
+		f := strings.Split(rp, sep)
+		if len(f) >= 3 {
+			if n, err := strconv.Atoi(f[1]); err == nil {
+				return n
+			}
+		}
+		return -1
+	}
 	take := func(at string, inflight, torn int, ev *crashfs.Event, force bool) {
 		if cur < pre || (!force && len(pend) >= capImg) {
 			return
@@ -438,19 +546,23 @@ func runHistory(idx int, work string, nser, nwal, pre int, auto, async bool, ops
 				panic(err)
 			}
 		}
-		pend = append(pend, pending{dir: d, wal: copyWal(wal), walEpoch: walEpoch,
-			img: Image{At: at, Op: cur, Acked: acked, Inflight: inflight, Torn: torn, Sub: -1}})
+		pend = append(pend, pending{dir: d, wal: copyWal(wal), walEpoch: copyEpoch(walEpoch),
+			img: Image{At: at, Op: cur, Acked: acked, Inflight: inflight, Torn: torn, Sub: -1, NRec: nrec, NSw: epoch, NJ: nj,
+				Gone: append([]int{}, gone...), Tie: !sp.auto}})
 	}
 	// sampling of crash points in the quick tier (every eligible point in thorough)
 	ch := func(num, den int) bool { return !quick || dense || r.Chance(num, den) }
-	isIndex := func(p string) bool { return strings.Contains(rel(p), "index"+string(os.PathSeparator)) }
-	walDone := false // the WAL record of the write in flight is completely on disk
 	inDrop := false
 	infl := func() int {
 		if inWrite || inDrop {
 			return cur
 		}
 		return -1
+	}
+	tieErr := func(s string) {
+		if h.TieErr == "" && !sp.auto {
+			h.TieErr = s
+		}
 	}
 	// one write op per history always gets the header-only torn image (5 bytes = type + length, no payload)
 	var wops []int
@@ -469,6 +581,13 @@ func runHistory(idx int, work string, nser, nwal, pre int, auto, async bool, ops
 		}
 	}
 	rec.Start(dir, func(ev *crashfs.Event) {
+		if ev.Kind == "write" && isWal(ev.Path) && inWrite && cur == sp.tornAll {
+			for k := 0; k < len(ev.Data); k++ {
+				take(fmt.Sprintf("torn wal append %d/%d", k, len(ev.Data)), cur, k, ev, true)
+				h.Flags.TornAll++
+			}
+			return
+		}
 		if ev.Kind == "write" && isWal(ev.Path) && inWrite && hdrOp[cur] && len(ev.Data) > 5 {
 			take(fmt.Sprintf("torn wal append %d/%d", 5, len(ev.Data)), cur, 5, ev, true)
 		}
@@ -486,7 +605,7 @@ func runHistory(idx int, work string, nser, nwal, pre int, auto, async bool, ops
 		}
 	}, func(ev *crashfs.Event) {
 		rp := rel(ev.Path)
-		txnSeg := "mergeset" + string(os.PathSeparator) + "txn" + string(os.PathSeparator)
+		txnSeg := "mergeset" + sep + "txn" + sep
 		if ev.Kind == "rename" && strings.Contains(rel(ev.Path2), txnSeg) {
 			// transaction files are written under a temporary name and renamed into place
 			if d, ok := txnData[rp]; ok {
@@ -499,20 +618,29 @@ func runHistory(idx int, work string, nser, nwal, pre int, auto, async bool, ops
 			if inWrite {
 				wal[rp] = append(wal[rp], cur)
 				walEpoch[rp] = epoch
-				walDone = true
+				nrec++
 				if ch(1, 4) {
 					take("wal append complete, not yet acknowledged", cur, -1, nil, false)
 				}
 			}
 		case ev.Kind == "remove" && isWal(ev.Path):
+			// the flush of epoch nj may remove exactly the log files of epoch nj (model: WRemove, nj < nf)
+			if e, ok := walEpoch[rp]; !ok {
+				tieErr("a log file without a known record was removed: " + rp)
+			} else if !inFlush || e != nj {
+				tieErr(fmt.Sprintf("op %d: log file %s holding records of switch epoch %d was removed while the flush of epoch %d %s", cur, rp, e, nj,
+					map[bool]string{true: "is running", false: "is not running"}[inFlush]))
+			}
 			delete(wal, rp)
+			delete(walEpoch, rp)
+			gone = append(gone, partOf(rp))
 			if ch(1, 2) {
 				take("flush: removed "+rp, infl(), -1, nil, false)
 			}
 		case ev.Kind == "sync" && isWal(ev.Path):
 			// periodic/explicit syncs of log files change nothing under process-kill semantics
 		case isIndex(ev.Path):
-			if ev.Kind == "write" && strings.Contains(rp, "mergeset"+string(os.PathSeparator)+"txn"+string(os.PathSeparator)) {
+			if ev.Kind == "write" && strings.Contains(rp, txnSeg) {
 				txnData[rp] = append(txnData[rp], ev.Data...)
 			}
 			if ch(1, 12) {
@@ -528,146 +656,391 @@ func runHistory(idx int, work string, nser, nwal, pre int, auto, async bool, ops
 			}
 		}
 	})
-	_ = walDone
-	for i := range ops {
-		cur = i
-		op := &ops[i]
-		switch op.K {
-		case "W":
-			for _, rw := range op.Rows {
-				if ft, ok := flushedMax[rw.S]; ok && rw.T <= ft {
-					h.Flags.Late = true
+
+	// ---- flushes: forced (synchronous), held at a chosen step, and their accounting ----
+	type heldFlush struct {
+		resume func()
+		done   chan any
+	}
+	var held *heldFlush
+	flushBegin := func() { // the log switch is the first thing a flush does
+		inFlush = true
+		epoch++
+	}
+	flushEnd := func() {
+		for rp, e := range walEpoch {
+			if e <= nj {
+				tieErr(fmt.Sprintf("op %d: the flush of epoch %d finished but the log file %s of epoch %d is still there", cur, nj, rp, e))
+			}
+		}
+		inFlush = false
+		nj++
+		gone = nil
+		h.Flags.Flushes++
+		for s, t := range memMax {
+			if ft, ok := flushedMax[s]; !ok || t > ft {
+				flushedMax[s] = t
+			}
+		}
+		memMax = map[int]int{}
+	}
+	pausePred := func(point int) func(kind, path string) bool {
+		removes := 0
+		return func(kind, path string) bool {
+			if !strings.HasPrefix(filepath.Clean(path), dir+sep) {
+				return false
+			}
+			switch point {
+			case 0:
+				return kind == "create" && isData(path)
+			case 1:
+				return kind == "rename" && isData(path)
+			case 2:
+				return kind == "remove" && isWal(path)
+			default:
+				if kind == "remove" && isWal(path) {
+					removes++
+					return removes == 2
 				}
-				if len(rw.F) < 2 {
-					h.Flags.Partial = true
-				}
-				for _, fv := range rw.F {
-					k := tsdrv.Key{S: rw.S, T: rw.T, F: fv.F}
-					if e0, ok := lastEpoch[k]; ok {
-						h.Flags.Overwrite = true
-						if e0 == epoch {
-							h.Flags.SameEpochOver = true
-						}
-					}
-					lastEpoch[k] = epoch
-				}
-				if t, ok := memMax[rw.S]; !ok || rw.T > t {
-					memMax[rw.S] = rw.T
-				}
+				return false
 			}
-			inWrite = true
-			err := writeRows(sh, op.Rows)
-			inWrite = false
-			if err != nil {
-				rec.Stop()
-				h.Crash = fmt.Sprintf("write op %d: %v", i, err)
-				return
-			}
-			acked = i + 1
-			if auto && r.Chance(1, 3) {
-				time.Sleep(110 * time.Millisecond) // let the snapshot timer see the (over-full) memtable
-			}
-			if ch(1, 3) || i == len(ops)-1 || (paused && i >= pre) {
-				cur = i + 1
-				rec.Locked(func() { take("after acknowledgement of op "+strconv.Itoa(i), -1, -1, nil, i == len(ops)-1 || paused) })
-			}
-		case "D":
-			if paused {
-				sh.V.FinishPausedFlush()
-				paused = false
-			}
-			inDrop = true
-			err := sh.V.VerifDropMeasurement(tsdrv.Mst)
-			inDrop = false
-			if err != nil {
-				rec.Stop()
-				h.Crash = fmt.Sprintf("drop op %d: %v", i, err)
-				return
-			}
-			acked = i + 1
-			epoch++
-			h.Flags.Drops++
-			lastEpoch = map[tsdrv.Key]int{}
-			cur = i + 1
-			rec.Locked(func() { take("after acknowledgement of drop op "+strconv.Itoa(i), -1, -1, nil, true) })
-		case "FB":
-			if sh.V.BeginPausedFlush() {
-				paused = true
-				epoch++
-			}
-			acked = i + 1
-		case "FE", "F":
-			if op.K == "FE" {
-				if !paused {
-					acked = i + 1
-					continue
-				}
-				sh.V.FinishPausedFlush()
-				paused = false
-			} else {
-				if paused {
-					sh.V.FinishPausedFlush()
-					paused = false
-				}
-				sh.V.ForceFlush()
-				epoch++
-			}
-			acked = i + 1
-			h.Flags.Flushes++
-			for s, t := range memMax {
-				if ft, ok := flushedMax[s]; !ok || t > ft {
-					flushedMax[s] = t
-				}
-			}
-			memMax = map[int]int{}
 		}
 	}
-	if paused {
-		sh.V.FinishPausedFlush()
+	finishHeld := func() {
+		if held == nil {
+			return
+		}
+		hf := held
+		held = nil
+		tick("finishing the held flush")
+		hf.resume()
+		if e := <-hf.done; e != nil {
+			panic(e)
+		}
+		flushEnd()
 	}
-	// corpus-like image: the last two index transactions are still pending (their files are removed asynchronously,
-	// after the parts they replaced are gone): the final state plus the two transaction files as they were written
-	if len(txnOrder) >= 2 {
-		cur = len(ops)
-		rec.Locked(func() {
-			take("planted: final state with the last two index transaction files not yet removed", -1, -1, nil, true)
-			d := pend[len(pend)-1].dir
-			for _, rp := range txnOrder[len(txnOrder)-2:] {
-				p := filepath.Join(d, rp)
-				_ = os.MkdirAll(filepath.Dir(p), 0750)
-				if _, err := os.Stat(p); err != nil {
-					_ = os.WriteFile(p, txnFinal[rp], 0600)
+	beginHeld := func(point int) {
+		reached, resume := g.arm(pausePred(point))
+		done := make(chan any, 1)
+		flushBegin()
+		go func() {
+			defer func() { done <- recover() }()
+			sh.ForceFlush()
+		}()
+		select {
+		case <-reached:
+			held = &heldFlush{resume: resume, done: done}
+		case e := <-done: // the flush never came to that step
+			resume()
+			if e != nil {
+				panic(e)
+			}
+			flushEnd()
+		}
+	}
+
+	crash := func() (msg string) {
+		defer func() {
+			if e := recover(); e != nil {
+				msg = fmt.Sprintf("panic during op %d (%s): %v", cur, ops[min(cur, len(ops)-1)].K, e)
+				if os.Getenv("VERIF_DEBUG") != "" {
+					fmt.Fprintf(os.Stderr, "PANIC %v\n%s\n", e, debug.Stack())
 				}
 			}
+		}()
+		for i := range ops {
+			cur = i
+			op := &ops[i]
+			tick(fmt.Sprintf("op %d (%s)", i, op.K))
+			switch op.K {
+			case "W":
+				for _, rw := range op.Rows {
+					if ft, ok := flushedMax[rw.S]; ok && rw.T <= ft {
+						h.Flags.Late = true
+					}
+					if len(rw.F) < 2 {
+						h.Flags.Partial = true
+					}
+					for _, fv := range rw.F {
+						k := tsdrv.Key{S: rw.S, T: rw.T, F: fv.F}
+						if e0, ok := lastEpoch[k]; ok {
+							h.Flags.Overwrite = true
+							if e0 == epoch {
+								h.Flags.SameEpochOver = true
+							}
+						}
+						lastEpoch[k] = epoch
+					}
+					if t, ok := memMax[rw.S]; !ok || rw.T > t {
+						memMax[rw.S] = rw.T
+					}
+				}
+				inWrite = true
+				err := writeRows(sh, nmst, op.Rows)
+				inWrite = false
+				if err != nil {
+					return fmt.Sprintf("write op %d: %v", i, err)
+				}
+				acked = i + 1
+				if held != nil {
+					h.Flags.PausedWrites++
+				}
+				if sp.auto && r.Chance(1, 3) {
+					time.Sleep(110 * time.Millisecond) // let the snapshot timer see the (over-full) memtable
+				}
+				if ch(1, 3) || i == len(ops)-1 || (held != nil && i >= pre) {
+					cur = i + 1
+					rec.Locked(func() { take("after acknowledgement of op "+strconv.Itoa(i), -1, -1, nil, i == len(ops)-1 || held != nil) })
+				}
+			case "D":
+				finishHeld()
+				inDrop = true
+				flushBegin()
+				err := sh.VerifDropMeasurement(mstNames[op.M%nmst])
+				inDrop = false
+				if err != nil {
+					return fmt.Sprintf("drop op %d: %v", i, err)
+				}
+				flushEnd()
+				acked = i + 1
+				h.Flags.Drops++
+				for k := range lastEpoch {
+					if mstOf(k.S, nmst) == op.M%nmst {
+						delete(lastEpoch, k)
+					}
+				}
+				cur = i + 1
+				rec.Locked(func() { take("after acknowledgement of drop op "+strconv.Itoa(i), -1, -1, nil, true) })
+			case "FB":
+				if held == nil {
+					beginHeld(op.P)
+				}
+				acked = i + 1
+			case "FE":
+				finishHeld()
+				acked = i + 1
+			case "F":
+				finishHeld()
+				flushBegin()
+				sh.ForceFlush()
+				flushEnd()
+				acked = i + 1
+			}
+		}
+		finishHeld()
+		return ""
+	}()
+	if crash != "" {
+		// in a server the panic ends the process: that instant is a crash image too. The shard is not closed
+		// (shard.Close would wait for the snapshot that will never finish); its index builder is.
+		h.Crash = crash
+		if held != nil {
+			held.resume()
+			held = nil
+		}
+		tick("image at the panic")
+		withTimeout(20*time.Second, func() {
+			rec.Locked(func() { take("the process died here: "+crash, infl(), -1, nil, true) })
 		})
+		rec.Stop()
+		withTimeout(20*time.Second, func() { _ = sh.VerifAbandon() })
+	} else {
+		// corpus-like image: the last two index transactions are still pending (their files are removed asynchronously,
+		// after the parts they replaced are gone): the final state plus the two transaction files as they were written
+		if len(txnOrder) >= 2 {
+			cur = len(ops)
+			rec.Locked(func() {
+				take("planted: final state with the last two index transaction files not yet removed", -1, -1, nil, true)
+				d := pend[len(pend)-1].dir
+				for _, rp := range txnOrder[len(txnOrder)-2:] {
+					p := filepath.Join(d, rp)
+					_ = os.MkdirAll(filepath.Dir(p), 0750)
+					if _, err := os.Stat(p); err != nil {
+						_ = os.WriteFile(p, txnFinal[rp], 0600)
+					}
+				}
+			})
+		}
+		rec.Stop()
+		tick("close")
+		if !withTimeout(60*time.Second, func() { _ = sh.Close() }) {
+			h.Crash = "closing the shard after the last op did not return within 60 s"
+		}
 	}
-	rec.Stop()
-	_ = sh.Close()
-	closed = true
 
 	// ---- reopen every image with the real code ----
-	q := tsdrv.Query{Fields: allFields(), Tmin: 0, Tmax: NT - 1, Asc: true, Parallel: 1}
-	expect := func(a, inflight int) *tsdrv.LWW {
-		l := tsdrv.NewLWW()
-		for i := 0; i < a; i++ {
-			if ops[i].K == "W" {
-				l.Apply(ops[i].Rows)
-			}
-			if ops[i].K == "D" {
-				l = tsdrv.NewLWW() // an acknowledged drop: nothing written before may come back
+	dropMst := func(l *tsdrv.LWW, m int) {
+		for k := range l.M {
+			if mstOf(k.S, nmst) == m {
+				delete(l.M, k)
 			}
 		}
-		if inflight >= 0 {
-			if ops[inflight].K == "D" {
-				l = tsdrv.NewLWW()
-			} else {
-				l.Apply(ops[inflight].Rows)
+	}
+	applyOp := func(l *tsdrv.LWW, op *Op) {
+		switch op.K {
+		case "W":
+			l.Apply(op.Rows)
+		case "D":
+			dropMst(l, op.M%nmst) // an acknowledged drop: nothing written to the measurement before may come back
+		}
+	}
+	expect := func(a, inflight int, ai *AsyncInfo) *tsdrv.LWW {
+		l := tsdrv.NewLWW()
+		for i := 0; i < a; i++ {
+			applyOp(l, &ops[i])
+		}
+		if inflight >= 0 && inflight < len(ops) {
+			applyOp(l, &ops[inflight])
+		}
+		if ai != nil {
+			if ai.DropTried && !ai.DropRefused {
+				dropMst(l, ai.DropM)
+			}
+			if ai.ExtraAcked {
+				l.Apply(ai.Extra)
 			}
 		}
 		return l
 	}
+	diff := func(l *tsdrv.LWW, got map[tsdrv.Key]int64) []Cell {
+		var out []Cell
+		for k, v := range l.M {
+			g, ok := got[k]
+			if !ok || g != v {
+				out = append(out, Cell{S: k.S, T: k.T, F: k.F, Want: v, WOk: true, Got: g, GOk: ok})
+			}
+		}
+		for k, g := range got {
+			if _, ok := l.M[k]; !ok {
+				out = append(out, Cell{S: k.S, T: k.T, F: k.F, Got: g, GOk: true})
+			}
+		}
+		sort.Slice(out, func(i, j int) bool {
+			a, b := out[i], out[j]
+			if a.S != b.S {
+				return a.S < b.S
+			}
+			if a.T != b.T {
+				return a.T < b.T
+			}
+			return a.F < b.F
+		})
+		return out
+	}
+	// every value an acknowledged write gave to a cell since the last acknowledged drop of the cell's measurement
+	everWritten := func(a int, ai *AsyncInfo) map[tsdrv.Key]map[int64]bool {
+		ev := map[tsdrv.Key]map[int64]bool{}
+		put := func(rows []tsdrv.Row) {
+			for _, rw := range rows {
+				for _, fv := range rw.F {
+					k := tsdrv.Key{S: rw.S, T: rw.T, F: fv.F}
+					if ev[k] == nil {
+						ev[k] = map[int64]bool{}
+					}
+					ev[k][fv.V] = true
+				}
+			}
+		}
+		forget := func(m int) {
+			for k := range ev {
+				if mstOf(k.S, nmst) == m {
+					delete(ev, k)
+				}
+			}
+		}
+		for i := 0; i < a; i++ {
+			switch ops[i].K {
+			case "W":
+				put(ops[i].Rows)
+			case "D":
+				forget(ops[i].M % nmst)
+			}
+		}
+		if ai != nil {
+			if ai.DropTried && !ai.DropRefused {
+				forget(ai.DropM)
+			}
+			if ai.ExtraAcked {
+				put(ai.Extra)
+			}
+		}
+		return ev
+	}
+	// the oracle: which allowed state does the dump equal?
+	judge := func(im *Image, got map[tsdrv.Key]int64, ai *AsyncInfo) (string, []Cell) {
+		d1 := diff(expect(im.Acked, -1, ai), got)
+		if len(d1) == 0 {
+			return "acked", nil
+		}
+		if im.Inflight >= 0 && im.Inflight < len(ops) {
+			d2 := diff(expect(im.Acked, im.Inflight, ai), got)
+			if len(d2) == 0 {
+				return "acked+inflight", nil
+			}
+			if ops[im.Inflight].K == "D" {
+				// a drop that was not acknowledged: other measurements exactly as acknowledged; of THAT measurement any part
+				// may be gone already or back at an older (flushed) value - the drop's own flush discards the measurement's
+				// memtable rows before its data files are removed - but every cell shown carries a value that some
+				// acknowledged write since the last acknowledged drop gave to it (nothing invented, nothing resurrected)
+				m := ops[im.Inflight].M % nmst
+				ok := true
+				pre := expect(im.Acked, -1, ai)
+				for k, v := range pre.M {
+					if mstOf(k.S, nmst) != m {
+						if g, has := got[k]; !has || g != v {
+							ok = false
+						}
+					}
+				}
+				ever := everWritten(im.Acked, ai)
+				for k, g := range got {
+					if mstOf(k.S, nmst) != m {
+						if _, has := pre.M[k]; !has {
+							ok = false
+						}
+					} else if !ever[k][g] {
+						ok = false
+					}
+				}
+				if ok {
+					return "partial-drop", nil
+				}
+			}
+			if len(d2) < len(d1) {
+				d1 = d2 // report the difference against the closer of the two allowed states
+			}
+		}
+		return "", d1
+	}
+	cells := func(got map[tsdrv.Key]int64) []Cell {
+		out := []Cell{}
+		for k, v := range got {
+			out = append(out, Cell{S: k.S, T: k.T, F: k.F, Got: v, GOk: true})
+		}
+		sort.Slice(out, func(i, j int) bool {
+			a, b := out[i], out[j]
+			if a.S != b.S {
+				return a.S < b.S
+			}
+			if a.T != b.T {
+				return a.T < b.T
+			}
+			return a.F < b.F
+		})
+		return out
+	}
+	extraVal := int64(900000)
 	var subNo []int
-	check := func(im *Image, d string, record bool) (subs []string) {
+	check := func(im *Image, d string, record, async bool, nfiles int) (subs []string) {
+		defer func() {
+			if e := recover(); e != nil {
+				rec.Stop()
+				im.Err = fmt.Sprintf("panic while recovering the crash image: %v", e)
+				if os.Getenv("VERIF_DEBUG") != "" {
+					fmt.Fprintf(os.Stderr, "PANIC %v\n%s\n", e, debug.Stack())
+				}
+			}
+		}()
 		subNo = subNo[:0]
 		im.Parts, im.Epochs = nil, nil
 		// the image is restored at the path of the live shard (the index keeps absolute paths in its transaction files)
@@ -682,6 +1055,65 @@ func runHistory(idx int, work string, nser, nwal, pre int, auto, async bool, ops
 					im.Txn++
 				}
 			}
+		}
+		if async {
+			ai := &AsyncInfo{WalFiles: nfiles}
+			im.Async = ai
+			_, release := g.holdReads(func(p string) bool { return strings.HasPrefix(filepath.Clean(p), filepath.Join(dir, "wal")+sep) })
+			released := false
+			defer func() {
+				if !released {
+					release()
+				}
+			}()
+			s2, err := openShard(dir, true)
+			if err != nil {
+				im.Err = "open after crash failed: " + err.Error()
+				return
+			}
+			ai.Replaying = s2.VerifReplayingWal()
+			if nfiles > 0 && ai.Replaying {
+				// the replay cannot finish: it has at least one log file to open. A drop must be refused now.
+				if r.Chance(2, 3) || dense {
+					ai.DropTried = true
+					ai.DropM = r.Intn(nmst)
+					ai.DropRefused = s2.VerifDropMeasurement(mstNames[ai.DropM]) != nil
+					ai.MarkAfter = s2.VerifMstDeleting(mstNames[ai.DropM])
+				}
+				if r.Chance(2, 3) || dense {
+					s, t := r.Intn(nser), r.Intn(NT)
+					ai.Extra = []tsdrv.Row{{S: s, T: t, F: []tsdrv.FV{{F: 0, V: extraVal}}}}
+					extraVal++
+					ai.ExtraAcked = writeRows(s2, nmst, ai.Extra) == nil
+				}
+			}
+			released = true
+			release()
+			tick("waiting for the asynchronous replay")
+			s2.VerifWaitWalReplay()
+			live, err := dumpAll(s2, nser, nmst)
+			if err != nil {
+				ai.Live = ""
+				im.Err = "dump after the asynchronous replay failed: " + err.Error()
+				_ = s2.Close()
+				return
+			}
+			ai.Live, ai.LiveDiff = judge(im, live, ai)
+			_ = s2.Close() // kill (Close does not flush the memtable) ...
+			s3, err := openShard(dir, false) // ... and restart
+			if err != nil {
+				im.Err = "open after the second crash failed: " + err.Error()
+				return
+			}
+			got, err := dumpAll(s3, nser, nmst)
+			_ = s3.Close()
+			if err != nil {
+				im.Err = "dump after the second crash failed: " + err.Error()
+				return
+			}
+			im.Dump = cells(got)
+			im.Match, im.Diff = judge(im, got, ai)
+			return
 		}
 		if record {
 			nsub := 0
@@ -702,7 +1134,7 @@ func runHistory(idx int, work string, nser, nwal, pre int, auto, async bool, ops
 				subNo = append(subNo, nsub)
 			})
 		}
-		s2, err := tsdrv.Open(dir, nser)
+		s2, err := openShard(dir, false)
 		if record {
 			rec.Stop()
 		}
@@ -710,98 +1142,44 @@ func runHistory(idx int, work string, nser, nwal, pre int, auto, async bool, ops
 			im.Err = "open after crash failed: " + err.Error()
 			return
 		}
-		dump, err := s2.Dump(q)
+		got, err := dumpAll(s2, nser, nmst)
 		_ = s2.Close()
 		if err != nil {
 			im.Err = "dump after crash failed: " + err.Error()
 			return
 		}
-		got := map[tsdrv.Key]int64{}
-		im.Dump = []Cell{}
-		for sr := 0; sr < nser; sr++ {
-			for _, rw := range dump[sr] {
-				for _, fv := range rw.F {
-					got[tsdrv.Key{S: sr, T: rw.T, F: fv.F}] = fv.V
-					im.Dump = append(im.Dump, Cell{S: sr, T: rw.T, F: fv.F, Got: fv.V, GOk: true})
-				}
-			}
-		}
-		diff := func(l *tsdrv.LWW) []Cell {
-			var out []Cell
-			for k, v := range l.M {
-				g, ok := got[k]
-				if !ok || g != v {
-					out = append(out, Cell{S: k.S, T: k.T, F: k.F, Want: v, WOk: true, Got: g, GOk: ok})
-				}
-			}
-			for k, g := range got {
-				if _, ok := l.M[k]; !ok {
-					out = append(out, Cell{S: k.S, T: k.T, F: k.F, Got: g, GOk: true})
-				}
-			}
-			sort.Slice(out, func(i, j int) bool {
-				a, b := out[i], out[j]
-				if a.S != b.S {
-					return a.S < b.S
-				}
-				if a.T != b.T {
-					return a.T < b.T
-				}
-				return a.F < b.F
-			})
-			return out
-		}
-		d1 := diff(expect(im.Acked, -1))
-		if len(d1) == 0 {
-			im.Match = "acked"
-			return
-		}
-		if im.Inflight >= 0 {
-			d2 := diff(expect(im.Acked, im.Inflight))
-			if len(d2) == 0 {
-				im.Match = "acked+inflight"
-				return
-			}
-			if ops[im.Inflight].K == "D" {
-				// a drop that was not acknowledged: any part of the measurement may already be gone, nothing may change
-				sub := true
-				pre := expect(im.Acked, -1)
-				for k, g := range got {
-					if v, ok := pre.M[k]; !ok || v != g {
-						sub = false
-					}
-				}
-				if sub {
-					im.Match = "partial-drop"
-					return
-				}
-			}
-			if len(d2) < len(d1) {
-				d1 = d2 // report the difference against the closer of the two allowed states
-			}
-		}
-		im.Diff = d1
+		im.Dump = cells(got)
+		im.Match, im.Diff = judge(im, got, nil)
 		return
 	}
-	for _, p := range pend {
-		im := p.img
-		parts, epochs := partsOf(p.dir, nwal, p.wal, p.walEpoch)
-		subs := check(&im, p.dir, true)
-		im.Parts, im.Epochs = parts, epochs
+	add := func(im Image) {
+		rn.hmu.Lock()
 		h.Images = append(h.Images, im)
+		rn.hmu.Unlock()
+	}
+	for pi, p := range pend {
+		im := p.img
+		tick(fmt.Sprintf("recovering image %d/%d (%s)", pi+1, len(pend), im.At))
+		parts, epochs, nfiles := partsOf(p.dir, nwal, p.wal, p.walEpoch)
+		async := sp.async && im.Torn < 0
+		subs := check(&im, p.dir, !async && !(sp.tornAll >= 0 && im.Torn >= 0), async, nfiles)
+		im.Parts, im.Epochs = parts, epochs
+		add(im)
 		nos := append([]int(nil), subNo...)
 		for j, sd := range subs {
+			tick(fmt.Sprintf("recovering image %d/%d (%s), second crash %d", pi+1, len(pend), im.At, j))
 			sub := p.img
 			sub.Sub = nos[j]
-			sp, se := partsOf(sd, nwal, p.wal, p.walEpoch)
-			check(&sub, sd, false)
-			sub.Parts, sub.Epochs = sp, se
-			h.Images = append(h.Images, sub)
+			sub.Tie = false
+			sp2, se, nf2 := partsOf(sd, nwal, p.wal, p.walEpoch)
+			check(&sub, sd, false, false, nf2)
+			sub.Parts, sub.Epochs = sp2, se
+			add(sub)
 			os.RemoveAll(sd)
 		}
 		os.RemoveAll(p.dir)
 	}
-	return
+	return h
 }
 
 func main() {
@@ -822,39 +1200,100 @@ func main() {
 	}
 	rec := crashfs.Install()
 	defer rec.Uninstall()
+	rn := &runner{g: installGate(), rec: rec, work: work, quick: quick}
 	enc := json.NewEncoder(os.Stdout)
+	// watchdog: a history that makes no progress (an op, an image) for stuckAfter is reported and the run ends
+	stuckAfter := 60 * time.Second
+	if v, err := strconv.Atoi(os.Getenv("VERIF_C01_STUCK_S")); err == nil && v > 0 {
+		stuckAfter = time.Duration(v) * time.Second
+	}
+	guarded := func(idx int, sp spec, r *gen.Rand) {
+		_ = enc.Encode(map[string]any{"start": idx, "nwal": sp.nwal, "nser": sp.nser, "nmst": max(sp.nmst, 1), "pre": sp.pre, "auto": sp.auto, "async": sp.async, "ops": sp.ops})
+		done := make(chan *History, 1)
+		go func() {
+			defer func() {
+				if e := recover(); e != nil {
+					done <- &History{Case: idx, NWal: sp.nwal, NSer: sp.nser, NMst: max(sp.nmst, 1), Ops: sp.ops, Pre: sp.pre, Auto: sp.auto, Async: sp.async,
+						Images: []Image{}, Crash: fmt.Sprintf("harness panic: %v\n%s", e, debug.Stack())}
+				}
+			}()
+			done <- rn.runHistory(idx, sp, r)
+		}()
+		last, lastAt := progress.Load(), time.Now()
+		for {
+			select {
+			case h := <-done:
+				_ = enc.Encode(h)
+				return
+			case <-time.After(500 * time.Millisecond):
+			}
+			if p := progress.Load(); p != last {
+				last, lastAt = p, time.Now()
+				continue
+			}
+			if time.Since(lastAt) < stuckAfter {
+				continue
+			}
+			ph, _ := phase.Load().(string)
+			rn.hmu.Lock()
+			h := History{Case: idx, NWal: sp.nwal, NSer: sp.nser, NMst: max(sp.nmst, 1), Ops: sp.ops, Pre: sp.pre, Auto: sp.auto, Async: sp.async, Images: []Image{}}
+			if rn.cur != nil && rn.cur.Case == idx {
+				h.Images = append(h.Images, rn.cur.Images...)
+				h.Flags, h.TieErr = rn.cur.Flags, rn.cur.TieErr
+			}
+			rn.hmu.Unlock()
+			h.Crash = fmt.Sprintf("watchdog: no progress for %v while %s", stuckAfter, ph)
+			_ = enc.Encode(&h)
+			if os.Getenv("VERIF_DEBUG") != "" {
+				buf := make([]byte, 1<<22)
+				fmt.Fprintf(os.Stderr, "%s\n", buf[:runtime.Stack(buf, true)])
+			}
+			fmt.Fprintln(os.Stderr, "c01 done (stopped by the watchdog)")
+			os.Exit(0)
+		}
+	}
 	if len(args) > 1 { // replay: a file holding one History
 		b, err := os.ReadFile(args[1])
 		if err != nil {
 			fmt.Fprintln(os.Stderr, err)
 			os.Exit(2)
 		}
-		var h History
+		var h struct {
+			History
+			TornAll *int `json:"torn_all_op"`
+		}
 		if err := json.Unmarshal(b, &h); err != nil {
 			fmt.Fprintln(os.Stderr, err)
 			os.Exit(2)
 		}
-		_ = enc.Encode(runHistory(h.Case, work, h.NSer, h.NWal, h.Pre, h.Auto, h.Async, h.Ops, gen.FromEnv(1001), rec, false))
+		sp := spec{nser: h.NSer, nwal: h.NWal, nmst: h.NMst, pre: h.Pre, auto: h.Auto, async: h.Async, tornAll: -1, ops: h.Ops}
+		if h.TornAll != nil {
+			sp.tornAll = *h.TornAll
+		}
+		rn.quick = false
+		guarded(h.Case, sp, gen.FromEnv(1001))
 		fmt.Fprintln(os.Stderr, "c01 done")
 		return
 	}
-	// the witness first
-	ns, nw, ops := witness()
-	_ = enc.Encode(runHistory(100000, work, ns, nw, 0, false, false, ops, gen.FromEnv(1001), rec, quick))
-	ns, nw, pre, ops := aged8()
-	_ = enc.Encode(runHistory(100001, work, ns, nw, pre, false, false, ops, gen.FromEnv(1002), rec, quick))
-	ns, nw, pre, ops = newSeriesBeforeFlush()
-	_ = enc.Encode(runHistory(100002, work, ns, nw, pre, false, false, ops, gen.FromEnv(1003), rec, quick))
-	ns, nw, pre, ops = dropHistory()
-	_ = enc.Encode(runHistory(100003, work, ns, nw, pre, false, false, ops, gen.FromEnv(1004), rec, quick))
+	only := os.Getenv("VERIF_ONLY")
+	fixed := []spec{witness(), aged8(), newSeriesBeforeFlush(), dropHistory(), tornSweep(), asyncHistory(),
+		duringFlush(1, 0), duringFlush(1, 2), duringFlush(3, 1), duringFlush(3, 3), duringFlush(2, 2)}
+	for i, sp := range fixed {
+		if !quick || i < 6 || i-6 == int(gen.FromEnv(77).Intn(5)) || i == 7 { // quick: two of the five held-flush histories
+			if only != "" && only != strconv.Itoa(100000+i) {
+				continue
+			}
+			guarded(100000+i, sp, gen.FromEnv(uint64(1001+i)))
+		}
+	}
 	master := gen.FromEnv(1)
 	for i := 0; i < n; i++ {
 		r := master.Fork()
-		nser, nwal, pre, ops := genHistory(r)
-		if only := os.Getenv("VERIF_ONLY"); only != "" && only != strconv.Itoa(i) {
+		sp := genHistory(r)
+		if only != "" && only != strconv.Itoa(i) {
 			continue
 		}
-		_ = enc.Encode(runHistory(i, work, nser, nwal, pre, r.Chance(1, 6), false, ops, r.Fork(), rec, quick))
+		guarded(i, sp, r.Fork())
 	}
 	fmt.Fprintln(os.Stderr, "c01 done")
 }
